@@ -117,8 +117,42 @@ def op_lines(op):
 _FILE_DIRS = [0]
 
 
-def run_connection(scn, workdir):
+def apply_edits(lst, edits):
+    """the CALLER's own in-place changes of a list between two calls (repairing a line, adding / removing one)"""
+    for e in edits or []:
+        if e[0] == "set":
+            lst[e[1]] = e[2]
+        elif e[0] == "append":
+            lst.append(e[1])
+        elif e[0] == "insert":
+            lst.insert(e[1], e[2])
+        elif e[0] == "del":
+            del lst[e[1]]
+        else:
+            raise ValueError("unknown edit %r" % (e,))
+
+
+def new_pool(hist):
+    """the caller's objects of one history: "live" = the list objects handed to the driver (ONE object per id, handed over again and
+    again, on every connection of the history), "shadow" = what the caller put into them (same initial content, same edits; never
+    handed to any code under test), "fwc" = the marker lists handed over per call (one object per distinct content)"""
+    return {"live": {k: list(v) for k, v in hist["lists"].items()}, "shadow": {k: list(v) for k, v in hist["lists"].items()}, "fwc": {}}
+
+
+def canon_list(x):
+    return [(type(e).__name__, e) for e in x]
+
+
+def run_history(hist, workdir):
+    pool = new_pool(hist)
+    return [run_connection(c, workdir, pool) for c in hist["connections"]]
+
+
+def run_connection(scn, workdir, pool=None):
     """returns the list of observations, one per op.
+    The caller's objects are observed too: the list handed to send_commands / send_configs (and a per-call marker list) is compared
+    after the call with a copy taken before it ("caller").  An op with a "list_id" is handed the history's shared list object of that
+    id (pool, see new_pool) after the caller's own "edits" of it; op["lines"] is what the caller put into it by then.
     Files of the from-file ops live in a directory of this connection alone (removed afterwards): nothing a process keeps per path
     carries over from one scenario to the next, so a scenario fails or holds on its own and its replay in a fresh process sees what
     the run saw.  The history of a file is part of the scenario: ops with the same "path_id" send the SAME path again, rewritten in
@@ -192,8 +226,18 @@ def run_connection(scn, workdir):
             w0, l0, r0 = len(d.transport.writes), len(dev.log), len(dev.rx)
             cur0 = d._current_priv_level.name if kind != "generic" else ""
             kw = {}
+            caller = {"before": None, "after": None, "stale": None, "fwc_stale": None, "fwc_before": None, "fwc_after": None, "iter_left": None}
+            fw = op["fwc"]
+            if isinstance(fw, list):
+                if pool is not None:                       # one marker list object per distinct content, handed over again and again
+                    fw = pool["fwc"].setdefault(json.dumps(fw), list(fw))
+                    if fw != op["fwc"]:
+                        caller["fwc_stale"] = "the caller's marker list %r holds %r by now" % (op["fwc"][:4], fw[:4])
+                else:
+                    fw = list(fw)
+                caller["fwc_before"] = canon_list(fw)
             if op["fwc"] is not None:
-                kw["failed_when_contains"] = op["fwc"]
+                kw["failed_when_contains"] = fw
             name = op["op"]
             if name != "send_command":
                 kw.update(stop_on_failed=op["stop"], eager=op["eager"])
@@ -212,9 +256,32 @@ def run_connection(scn, workdir):
             elif name == "send_command":
                 arg = op["lines"][0]
             else:
-                arg = list(op["lines"])
+                lid = op.get("list_id")
+                if lid is not None:
+                    if pool is None:
+                        raise RuntimeError("the op refers to a shared list but the scenario is not run as a history")
+                    arg = pool["live"][lid]
+                    apply_edits(pool["shadow"][lid], op.get("edits"))
+                    if pool["shadow"][lid] != op["lines"]:
+                        raise RuntimeError("history inconsistent: list %s holds %r after the caller's edits, the op says %r" % (
+                            lid, pool["shadow"][lid][:6], op["lines"][:6]))
+                    try:
+                        apply_edits(arg, op.get("edits"))
+                    except IndexError:                     # the object is no longer what the caller made it
+                        pass
+                    if canon_list(arg) != canon_list(op["lines"]):
+                        caller["stale"] = "the caller put %d line(s) into the list (%r), it holds %d by now (%r)" % (
+                            len(op["lines"]), [l[:30] for l in op["lines"]][:6], len(arg), [str(l)[:30] for l in arg][:6])
+                else:
+                    arg = list(op["lines"])
+                caller["before"] = canon_list(arg)
+                held = arg
+                if op.get("container") == "tuple":
+                    arg = tuple(arg)
+                elif op.get("container") == "generator":
+                    arg = iter(list(arg))
             o = {"exc": None, "flags": [], "results": [], "inputs": [], "multi_failed": None, "merged": None, "starved": False,
-                 "nav_starved": False}
+                 "nav_starved": False, "caller": caller}
             try:
                 res = run.call(getattr(d, name), arg, **kw)
                 if name == "send_command":
@@ -230,6 +297,12 @@ def run_connection(scn, workdir):
                 o["exc"], o["starved"], o["nav_starved"] = "Starved", True, nav_open[0] > 0
             except Exception as e:  # noqa
                 o["exc"] = type(e).__name__
+            if caller["before"] is not None:
+                caller["after"] = canon_list(held)
+                if op.get("container") == "generator":
+                    caller["iter_left"] = canon_list(list(arg))
+            if caller["fwc_before"] is not None:
+                caller["fwc_after"] = canon_list(fw)
             writes = d.transport.writes[w0:]
             events, pos = [], 0
             in_nav = set()
@@ -349,8 +422,40 @@ def oracle_starved(kind, op, o):
     return []
 
 
+def oracle_caller(kind, op, o):
+    """the caller's own objects: the list handed to send_commands / send_configs (and a marker list handed over per call) holds after
+    the call - however it ended - exactly what it held before it (deep comparison with the copy taken before the call), and when the
+    call is made it holds what the caller put into it (an object handed over before is still the caller's).  Containers that are
+    refused (tuple, iterator) are refused untouched."""
+    c = o.get("caller") or {}
+    bad = []
+    if c.get("stale"):
+        bad.append(("caller-list-stale", "%s handed over again: %s - an earlier call changed the caller's object, so this call is "
+                    "not given the lines the caller means to send" % (op["op"], c["stale"])))
+    if c.get("fwc_stale"):
+        bad.append(("caller-markers-stale", "%s, failed_when_contains handed over again: %s - an earlier call changed the caller's object, so "
+                    "this call is not given the markers the caller means" % (op["op"], c["fwc_stale"])))
+    if c.get("before") is not None and c["after"] != c["before"]:
+        b, a = [x[1] for x in c["before"]], [x[1] for x in c["after"]]
+        bad.append(("caller-list-changed", "%s changed the caller's list: it held %d line(s) %r when the call was made and holds %d "
+                    "afterwards %r (outcome of the call: %s)" % (op["op"], len(b), [str(x)[:40] for x in b][:8], len(a),
+                                                                 [str(x)[:40] for x in a][:8], o["exc"] or "returned")))
+    if c.get("fwc_before") is not None and c["fwc_after"] != c["fwc_before"]:
+        bad.append(("caller-markers-changed", "%s changed the caller's failed_when_contains list: %r before the call, %r afterwards" % (
+            op["op"], [x[1] for x in c["fwc_before"]][:6], [x[1] for x in c["fwc_after"]][:6])))
+    if c.get("iter_left") is not None and c["iter_left"] != c["before"]:
+        bad.append(("caller-iterator-consumed", "%s refused the iterator but took %d of its %d items" % (
+            op["op"], len(c["before"]) - len(c["iter_left"]), len(c["before"]))))
+    return bad
+
+
 def oracle(kind, op, o):
-    """list of (signature, text) property failures of one observed op ([] = holds)"""
+    """list of (signature, text) property failures of one observed op ([] = holds): delivery, flags, abort on the device's side, and
+    the caller's objects"""
+    return oracle_delivery(kind, op, o) + oracle_caller(kind, op, o)
+
+
+def oracle_delivery(kind, op, o):
     bad = []
     lines = op_lines(op)
     n = len(lines)
@@ -640,8 +745,12 @@ def gen_op(rng, kind, trans, force=None):
         n = 1 if name == "send_command" else rng.choice([0, 1, 1, 2, 2, 3, 3, 4, 5, 6, 8])
     if name == "send_command":
         n = 1
-    lines = [gen_line(rng, trans) for _ in range(n)]
-    if n >= 2 and rng.random() < 0.15:
+    if "lines" in force:
+        lines = list(force["lines"])
+        n = len(lines)
+    else:
+        lines = [gen_line(rng, trans) for _ in range(n)]
+    if "lines" not in force and n >= 2 and rng.random() < 0.15:
         # the same line more than once in one call (next to each other or apart): each occurrence must be written
         i, j = rng.sample(range(n), 2)
         lines[j] = lines[i]
@@ -1071,6 +1180,149 @@ def file_history_corpus():
             {"op": name, "text": t, "lines": [], "outs": [], "fwc": None, "stop": bool(j % 2), "eager": False, "priv": "", "path_id": 0, "keep_mtime": j != 2}
             for j, t in enumerate(texts)]})
     return out
+
+
+# ------------------------------------------------------------------------------------------------
+# list histories: the list handed to send_commands / send_configs is the CALLER's.  ONE list object is handed over again and again:
+# to the next call on the same connection (second push, also after a stop_on_failed break and after the caller repaired / added /
+# removed a line IN PLACE) and to the next connection (the loop over devices: other platforms, the other stack).  Every call must
+# put on the wire the lines the caller's list holds when it is made, and leave the list as it was.
+# ------------------------------------------------------------------------------------------------
+def gen_edits(rng, trans, cur):
+    """the caller's own in-place changes between two calls; returns (edits, the list after them)"""
+    cur, edits = list(cur), []
+    for _ in range(rng.choice([1, 1, 2])):
+        k = rng.choice(["set", "set", "append", "insert", "del"])
+        if k in ("set", "del") and not cur:
+            k = "append"
+        if k == "del" and len(cur) == 1:
+            k = "set"
+        if k == "set":
+            e = ["set", rng.randrange(len(cur)), gen_line(rng, trans)]
+        elif k == "append":
+            e = ["append", gen_line(rng, trans)]
+        elif k == "insert":
+            e = ["insert", rng.randint(0, len(cur)), gen_line(rng, trans)]
+        else:
+            e = ["del", rng.randrange(len(cur))]
+        apply_edits(cur, [e])
+        edits.append(e)
+    return edits, cur
+
+
+def gen_list_history(rng, trans):
+    lists = {}
+    for i in range(rng.choice([1, 1, 1, 2])):
+        n = rng.choice([1, 1, 2, 2, 3, 3, 4, 5, 6]) if rng.random() < 0.95 else 0
+        lists[str(i)] = [gen_line(rng, trans) for _ in range(n)]
+    cur = {k: list(v) for k, v in lists.items()}
+    conns = []
+    same_kind = rng.choice(KINDS) if rng.random() < 0.3 else None
+    for _ in range(rng.choice([1, 2, 2, 3])):
+        kind = same_kind or rng.choice(KINDS)
+        names = ["send_commands"] if kind == "generic" else ["send_commands", "send_configs", "send_configs"]
+        ops = []
+        for _ in range(rng.choice([1, 1, 2, 2, 3]) if len(conns) else rng.choice([2, 2, 3])):
+            if rng.random() < 0.12:                        # something else in between (a list of its own, a file, a single line)
+                ops.append(gen_op(rng, kind, trans))
+                continue
+            lid = rng.choice(sorted(lists))
+            edits = []
+            if rng.random() < 0.3:
+                edits, cur[lid] = gen_edits(rng, trans, cur[lid])
+            force = {"op": rng.choice(names), "lines": cur[lid]}
+            if rng.random() < 0.5:
+                force["stop"] = True
+            op = gen_op(rng, kind, trans, force)
+            op["list_id"] = lid
+            if edits:
+                op["edits"] = edits
+            ops.append(op)
+        pol = rng.choice([("whole",), ("whole",), ("bytes", 3), ("bytes", 7)])
+        if any(o["eager"] for o in ops if o["op"] != "send_command"):
+            pol = ("whole",)
+        conns.append({"kind": kind, "stack": rng.choice(["sync", "async"]), "ops": ops, "policy": list(pol)})
+    return {"lists": lists, "connections": conns}
+
+
+def list_history_corpus():
+    """fixed shapes: the loop over devices, the second push on one connection (after a failed line was repaired in place), the list of
+    one line, three pushes in a row; then the containers that are not lists (refused, untouched)"""
+    def op(name, lines, lid, outs=None, stop=False, priv="", fwc=None, edits=None, eager=False):
+        o = {"op": name, "lines": list(lines), "outs": list(outs or []), "fwc": fwc, "stop": stop, "eager": eager, "priv": priv, "list_id": lid}
+        if edits:
+            o["edits"] = edits
+        return o
+    cfg = ["interface lo0", "description uplink", "no shutdown x"]
+    out = [{"lists": {"0": cfg}, "connections": [
+        {"kind": k, "stack": st, "policy": ["whole"], "ops": [op("send_configs", cfg, "0", stop=bool(i % 2))]}
+        for i, (k, st) in enumerate((("cisco_iosxe", "sync"), ("cisco_nxos", "async"), ("juniper_junos", "sync"), ("arista_eos", "async"),
+                                     ("cisco_iosxr", "sync"), ("network", "async")))]}]
+    for kind, stack, err, priv in (("cisco_iosxe", "sync", VENDOR_ERRORS["cisco_iosxe"][0], ""), ("juniper_junos", "async", "syntax error.", "configuration_private"),
+                                   ("cisco_nxos", "sync", VENDOR_ERRORS["cisco_nxos"][0], SESSION)):
+        bad = ["set ok 1", "set bogus 2", "set ok 3", "set ok 4"]
+        good = ["set ok 1", "set fine 2", "set ok 3", "set ok 4"]
+        out.append({"lists": {"0": bad}, "connections": [{"kind": kind, "stack": stack, "policy": ["whole"], "ops": [
+            op("send_configs", bad, "0", outs=["", err], stop=True, priv=priv),
+            op("send_configs", good, "0", stop=True, priv=priv, edits=[["set", 1, "set fine 2"]]),
+            op("send_commands", good, "0")]}]})
+    for stack in ("sync", "async"):
+        cmds = ["show a", "show b"]
+        out.append({"lists": {"0": cmds, "1": ["show only"]}, "connections": [
+            {"kind": "generic", "stack": stack, "policy": ["whole"], "ops": [
+                op("send_commands", cmds, "0", fwc=["unknown command"]), op("send_commands", ["show only"], "1"),
+                op("send_commands", cmds, "0", fwc=["unknown command"], eager=True),
+                op("send_commands", ["show only"], "1"), op("send_commands", cmds + ["show c"], "0", edits=[["append", "show c"]])]},
+            {"kind": "cisco_iosxe", "stack": stack, "policy": ["whole"], "ops": [
+                op("send_commands", ["show only"], "1", fwc=["unknown command"]), op("send_commands", cmds + ["show c"], "0", fwc=["unknown command"])]}]})
+    for cont in ("tuple", "generator"):
+        for kind, stack, name in (("generic", "sync", "send_commands"), ("cisco_iosxe", "async", "send_configs"), ("juniper_junos", "sync", "send_commands")):
+            o1 = op(name, cmds, "0")
+            del o1["list_id"]
+            o1.update(container=cont, expect_exc="ScrapliTypeError")
+            out.append({"lists": {"0": cmds}, "connections": [{"kind": kind, "stack": stack, "policy": ["whole"], "ops": [o1, op(name, cmds, "0")]}]})
+    return out
+
+
+def history_fails(hist, sig, workdir):
+    """does the LAST op of the last connection fail with this signature?"""
+    try:
+        obs = run_history(hist, workdir)
+    except Exception:  # noqa
+        return None
+    c = hist["connections"][-1]
+    if len(obs[-1]) != len(c["ops"]):
+        return None
+    return next((t for sg, t in oracle(c["kind"], c["ops"][-1], obs[-1][-1]) if sg == sig), None)
+
+
+def minimise_history(hist, ci, k, sig, workdir):
+    """cut the history after the failing op, then drop whole ops / connections before it while it still fails this way (an op whose
+    edits later ops build on cannot go: the history would no longer be consistent and does not run)"""
+    best = jsonable(dict(hist, connections=hist["connections"][:ci] + [dict(hist["connections"][ci], ops=hist["connections"][ci]["ops"][:k + 1])]))
+    changed = True
+    while changed:
+        changed = False
+        for a in range(len(best["connections"])):
+            conn = best["connections"][a]
+            last = a == len(best["connections"]) - 1
+            cands = []
+            if not last:
+                cands.append(best["connections"][:a] + best["connections"][a + 1:])
+            for j in range(len(conn["ops"]) - (1 if last else 0)):
+                ops = conn["ops"][:j] + conn["ops"][j + 1:]
+                if ops:
+                    cands.append(best["connections"][:a] + [dict(conn, ops=ops)] + best["connections"][a + 1:])
+            for cs in cands:
+                cand = dict(best, connections=cs)
+                if history_fails(cand, sig, workdir):
+                    best, changed = cand, True
+                    break
+            if changed:
+                break
+    used = {o.get("list_id") for c in best["connections"] for o in c["ops"]}
+    best["lists"] = {i: v for i, v in best["lists"].items() if i in used} or best["lists"]
+    return best
 
 
 def gen_scenario(rng, trans, kind=None, stack=None):
@@ -1508,22 +1760,38 @@ def run(rep):
         scenarios.append(("file-history", s))
     for _ in range(100 if thorough else 14):
         scenarios.append(("file-history", gen_file_history(rng_raw, trans)))
+    # list histories (own generator state again): ONE list object handed to call after call, connection after connection
+    rng_hist = random.Random(rep.seed * 1000003 + 0xC13C)
+    histories = [jsonable(h) for h in list_history_corpus()] + [jsonable(gen_list_history(rng_hist, trans)) for _ in range(240 if thorough else 36)]
+    runs = [(stream, scn, None) for stream, scn in scenarios]
+    for h in histories:
+        pool = new_pool(h)
+        for ci, c in enumerate(h["connections"]):
+            runs.append(("list-history", c, {"hist": h, "ci": ci, "pool": pool}))
     dist = {"file_resent": {"ops": 0, "content_changed": 0, "mtime_preserved": 0},
             "raw_outputs": {"not_utf8": 0, "multibyte_utf8": 0, "with_marker": 0, "without_marker": 0, "not_utf8_without_marker": 0,
                             "not_utf8_with_marker": 0, "not_utf8_without_marker_before_last_line_of_stop_on_failed_run": 0,
                             "non_ascii_marker_sets": 0},
+            "list_reuse": {"histories": len(histories), "connections": 0, "calls_given_a_shared_list": 0, "list_handed_over_before": 0,
+                           "handed_over_before_on_another_connection": 0, "edited_in_place_by_the_caller_since": 0,
+                           "after_a_stop_on_failed_break_on_it": 0, "marker_list_handed_over_before": 0, "refused_containers": 0},
             "by_stream": {}, "by_kind": {}, "by_op": {}, "by_stack": {}, "lines_hist": {}, "stop": 0, "eager": 0, "policy": {},
             "fwc_kind": {}, "first_failing_pos": {}, "aborts_seen": 0, "unicode_lines": 0, "blank_lines": 0, "long_lines": 0,
             "nav_events": 0, "exceptions": {}, "stalled_calls": 0,
             "long_multibyte_lines": 0, "repeated_lines": 0, "adjacent_repeats": 0, "max_line_bytes": 0, "line_bytes_hist": {},
             "marker_sets": {"sets": 0, "with_metachar": 0, "with_empty_marker": 0, "with_long_marker": 0, "with_nested_markers": 0,
                             "not_a_valid_pattern": 0, "driver_level": 0, "outputs": {}, "failed_flags": {"True": 0, "False": 0}}}
-    terms, meta, fails = [], [], []
+    terms, meta, fails, hfails = [], [], [], []
     t_impl = time.time()
-    for stream, scn in scenarios:
+    for stream, scn, ctx in runs:
         scn = jsonable(scn)
+        if ctx is not None:
+            lr = dist["list_reuse"]
+            lr["connections"] += 1
+            if ctx["ci"] == 0:
+                ctx["pool"]["seen"] = {}
         try:
-            obs = run_connection(scn, rep.workdir)
+            obs = run_connection(scn, rep.workdir, ctx["pool"] if ctx is not None else None)
         except Exception as e:  # the harness / device could not run it: fail closed
             rep.broken.append("harness: connection failed: %s: %s" % (type(e).__name__, e))
             rep.notes.append(json.dumps(scn)[:1500])
@@ -1538,6 +1806,22 @@ def run(rep):
                 dist["file_resent"]["content_changed"] += prev[-1]["text"] != op["text"]
                 dist["file_resent"]["mtime_preserved"] += bool(op.get("keep_mtime"))
             dist["by_stream"][stream] = dist["by_stream"].get(stream, 0) + 1
+            if ctx is not None:
+                lr["refused_containers"] += op.get("container") is not None
+                if op.get("list_id") is not None:
+                    seen = ctx["pool"]["seen"].setdefault(op["list_id"], {"conns": set(), "n": 0, "broke": False})
+                    lr["calls_given_a_shared_list"] += 1
+                    lr["list_handed_over_before"] += seen["n"] > 0
+                    lr["handed_over_before_on_another_connection"] += bool(seen["conns"] - {ctx["ci"]})
+                    lr["edited_in_place_by_the_caller_since"] += bool(seen["n"] and op.get("edits"))
+                    lr["after_a_stop_on_failed_break_on_it"] += seen["broke"]
+                    seen["conns"].add(ctx["ci"])
+                    seen["n"] += 1
+                    seen["broke"] = seen["broke"] or (op["stop"] and len(planned(kind, op, o)[0]) < len(lines))
+                if isinstance(op["fwc"], list):
+                    fseen = ctx["pool"]["seen"].setdefault("fwc:" + json.dumps(op["fwc"]), {"n": 0})
+                    lr["marker_list_handed_over_before"] += fseen["n"] > 0
+                    fseen["n"] += 1
             dist["by_kind"][kind] = dist["by_kind"].get(kind, 0) + 1
             dist["by_op"][op["op"]] = dist["by_op"].get(op["op"], 0) + 1
             dist["by_stack"][scn["stack"]] = dist["by_stack"].get(scn["stack"], 0) + 1
@@ -1592,7 +1876,7 @@ def run(rep):
                 # the call never came back; decided on what the device had received when the driver stalled
                 bad = oracle(kind, op, o) if stream != "malformed" else []
                 for sig, text in bad:
-                    fails.append((scn, k, sig, text))
+                    fails.append((scn, k, sig, text)) if ctx is None else hfails.append((ctx["hist"], ctx["ci"], k, sig, text))
                 if not bad:
                     rep.broken.append("harness: the driver read while the device had nothing to say (%s %s)" % (kind, op["op"]))
                     rep.notes.append(json.dumps({"scenario": scn, "op": k})[:2000])
@@ -1600,7 +1884,9 @@ def run(rep):
                 continue
             bad = oracle(kind, op, o) if stream != "malformed" or op.get("expect_exc") else []
             for sig, text in bad:
-                fails.append((scn, k, sig, text))
+                fails.append((scn, k, sig, text)) if ctx is None else hfails.append((ctx["hist"], ctx["ci"], k, sig, text))
+            if op.get("container") is not None:            # a refused container: decided by the oracle alone (the model's lines are lists)
+                continue
             terms.append(case_term(kind, scn["stack"], op, o))
             meta.append((scn, k, bool(bad)))
             if len(rep.samples) < 4 and len(lines) >= 2 and stream == "gen":
@@ -1680,7 +1966,7 @@ def run(rep):
     rep.coverage["phase_wall_s"]["model_evaluation"] = round(time.time() - t_model, 1)
     rep.coverage["correspondence"] = {"suite": "send-delivery", "cases": len(terms), "distribution": dist,
                                       "model_disagreements": None if badix is None else len(badix),
-                                      "oracle_failures": len(fails)}
+                                      "oracle_failures": len(fails) + len(hfails)}
     rep.coverage["correspondence_response_layer"] = {"suite": "response-direct", "cases": len(dterms), "distribution": ddist,
                                                      "model_disagreements": None if dbadix is None else len(dbadix),
                                                      "oracle_failures": len(dfails)}
@@ -1696,6 +1982,9 @@ def run(rep):
                 "characters, against outputs that carry a marker literally, a string a pattern reading of the marker accepts, or a near miss; "
                 "device outputs as bytes (stream 'rawout' + response layer): not well-formed UTF-8 (lone continuation bytes, ISO-8859-1 text, truncated and "
                 "ill-formed sequences) and well-formed multi-byte UTF-8, with and without a marker, mostly stop_on_failed runs of 1-5 lines, all read-chunking policies; "
+                "list histories (stream 'list-history'): ONE list object (1-2 per history, 0-6 lines) handed to send_commands / send_configs again and again on 1-3 "
+                "connections of any driver / stack, edited in place by the caller in between (set / append / insert / del), stop_on_failed breaks in between; the "
+                "caller's list (and per-call marker list) compared with a copy after every call of every stream; "
                 "non-trivial = more than one line or an exception; distinct = (driver, stack, op)")
     seen = set()
     for scn, k, sig, text in fails:
@@ -1714,6 +2003,20 @@ def run(rep):
         rep.violation("%s %s %s: %s" % (scn["kind"], scn["stack"], scn["ops"][k]["op"], text),
                       {"suite": "send-delivery", "scenario": small, "op": len(small["ops"]) - 1, "signature": sig,
                        "rerun": "./check C13 --replay <this file>"}, signature=sig)
+    for hist, ci, k, sig, text in hfails:
+        if sig in seen:
+            continue
+        seen.add(sig)
+        if len(seen) > 8:
+            break
+        small = minimise_history(hist, ci, k, sig, rep.workdir)
+        text = history_fails(small, sig, rep.workdir) or text
+        c = small["connections"][-1]
+        rep.violation("%s %s %s (call %d of a history that hands ONE list object to %d call(s) on %d connection(s)): %s" % (
+            c["kind"], c["stack"], c["ops"][-1]["op"], sum(len(x["ops"]) for x in small["connections"]),
+            sum(1 for x in small["connections"] for y in x["ops"] if y.get("list_id") is not None), len(small["connections"]), text),
+            {"suite": "send-delivery", "history": small, "conn": len(small["connections"]) - 1, "op": len(c["ops"]) - 1, "signature": sig,
+             "rerun": "./check C13 --replay <this file>"}, signature=sig)
     dseen = set()
     for dc, sig, text in sorted(dfails, key=lambda x: len(json.dumps(x[0]))):
         if sig in dseen:
@@ -1743,7 +2046,7 @@ def run(rep):
             rep.notes.append("model/implementation disagreement: %s" % json.dumps({"scenario": scn, "op": k})[:1800])
         if pure:
             rep.broken.append("correspondence send-delivery: model differs from implementation on %d case(s)" % len(pure))
-        if pure and not fails:
+        if pure and not fails and not hfails:
             # search for a failing input of the property near the disagreements
             found = 0
             for ix in pure[:6]:
@@ -1821,19 +2124,39 @@ def replay(path):
             print("   property FAILS: [%s] %s" % (sig, text))
         print("property holds on this input" if not bad else "property FAILS on this input")
         return 1 if bad else 0
+    workdir = os.path.join(common.BUILD, "C13")
+    os.makedirs(workdir, exist_ok=True)
+    if r.get("history"):
+        hist = r["history"]
+        print("history: %d list object(s) of the caller %r, each handed over again and again (list #id), on %d connection(s) one after the other" % (
+            len(hist["lists"]), {i: [l[:40] for l in v] for i, v in hist["lists"].items()}, len(hist["connections"])))
+        rc = 0
+        for ci, (scn, obs) in enumerate(zip(hist["connections"], run_history(hist, workdir))):
+            print("connection %d (%s %s):" % (ci, scn["kind"], scn["stack"]))
+            rc = max(rc, _replay_ops(r, scn, obs))
+        print("property holds on this input" if rc == 0 else "property FAILS on this input")
+        return rc
     scn = r.get("scenario")
     if not scn:
         print("nothing to replay (no concrete input): %s" % r.get("what"))
         return 1
-    workdir = os.path.join(common.BUILD, "C13")
-    os.makedirs(workdir, exist_ok=True)
-    obs = run_connection(scn, workdir)
+    rc = _replay_ops(r, scn, run_connection(scn, workdir))
+    print("property holds on this input" if rc == 0 else "property FAILS on this input")
+    return rc
+
+
+def _replay_ops(r, scn, obs):
     rc = 0
     for k, o in enumerate(obs):
         op = scn["ops"][k]
         print("op %d: %s %s %s lines=%r stop=%s eager=%s priv=%r fwc=%r%s" % (
             k, scn["kind"], scn["stack"], op["op"], [l[:50] for l in op_lines(op)], op["stop"], op["eager"], op.get("priv"), op["fwc"],
-            "" if op.get("path_id") is None else " file #%d%s" % (op["path_id"], " (rewritten, modification time kept)" if op.get("keep_mtime") else "")))
+            ("" if op.get("path_id") is None else " file #%d%s" % (op["path_id"], " (rewritten, modification time kept)" if op.get("keep_mtime") else "")) +
+            ("" if op.get("list_id") is None else " list #%s%s" % (op["list_id"], " (edited in place by the caller first: %r)" % (op["edits"],) if op.get("edits") else "")) +
+            ("" if op.get("container") is None else " handed over as a %s" % op["container"])))
+        c = o.get("caller") or {}
+        if c.get("before") is not None:
+            print("   caller's list: before the call %r, after it %r" % ([x[1] for x in c["before"]], [x[1] for x in c["after"]]))
         print("   outcome: exc=%s flags=%s merged=%s belief %s -> %s" % (o["exc"], o["flags"], o["merged"], o["cur0"], o["cur"]))
         if any(isinstance(x, dict) for x in op["outs"]):
             print("   device outputs (bytes): %r" % [out_bytes(x)[:80] for x in op["outs"]])
@@ -1849,7 +2172,6 @@ def replay(path):
         for sig, text in bad:
             print("   property FAILS: [%s] %s" % (sig, text))
             rc = 1
-    print("property holds on this input" if rc == 0 else "property FAILS on this input")
     return rc
 
 
@@ -1904,7 +2226,19 @@ MANIFEST = {
             "File histories (stream 'file-history'): the SAME file path is sent two or three times on one connection, rewritten in between (other "
             "lines, fewer / more, or unchanged; modification time preserved as by cp -p, or not): every send must deliver the lines the file holds "
             "at that moment. Every connection keeps its files in a directory of its own, so a scenario fails or holds on its own and the replay "
-            "in a fresh process sees what the run saw.",
+            "in a fresh process sees what the run saw. "
+            "The caller's objects (stream 'list-history' + an observer on every call of every stream): the list handed to send_commands / send_configs "
+            "is compared after EVERY call - returned, raised or stalled - with a copy taken before it (contents and element types; signature "
+            "caller-list-changed), and so is a marker list handed over per call (caller-markers-changed). Histories hand ONE list object to call "
+            "after call: again on the same connection (second and third push, after a stop_on_failed break on it, after the caller repaired / "
+            "appended / inserted / removed a line IN PLACE) and on the next connections (the loop over devices: other platforms, the other stack, "
+            "send_commands and send_configs mixed, 1-2 shared lists per history incl. the one-line and the empty list, other ops in between); "
+            "every call must put on the wire the lines the caller has put into the list by then (delivery oracle as everywhere, against the "
+            "caller's own record of the list, which no code under test ever sees) and the object must still hold them when it is handed over "
+            "(caller-list-stale); per-call marker lists of equal content are one shared object per history as well. Tuples and iterators are "
+            "not accepted by the code (ScrapliTypeError): they must be refused with nothing written, the list behind them and the iterator "
+            "untouched (caller-iterator-consumed). A failing history is cut after the failing call and shrunk by whole calls / connections; "
+            "the replay file holds the whole history ({lists, connections}) and the replay prints the caller's list before and after each call.",
     "note": "Proved on the model; the runtime is observed (partial): privilege navigation is abstracted to one event per acquire_priv call (its "
             "content is C04's subject; observed by wrapping acquire_priv on the driver instance, and checked device-side to consist of vendor transitions only), "
             "the channel's echo/prompt reading is C01/C02's subject (the device output per line is an arbitrary function in the theorems and the observed "
@@ -1931,6 +2265,13 @@ MANIFEST = {
             "characters; bytes >= 0x80 are no prompt characters and no ASCII blanks). "
             "File histories go through the modelled from-file path (the model is given the text the file holds at the call; it has no state "
             "between calls, which is what the property says). "
+            "List histories: every call of a history goes through the modelled send_commands / send_configs path (the model is given the lines the "
+            "caller's record of the list holds at the call; Coq lists are values, the model has no objects and no state between calls - which is "
+            "what the property says), so delivery / flags / abort of each call are covered by the model and the theorems; that the CALLER's list "
+            "and marker-list OBJECTS are left as they were and are still intact when handed over again (caller-list-changed, caller-list-stale, "
+            "caller-markers-changed, caller-markers-stale, caller-iterator-consumed) is oracle-only - object identity and mutation are not modelled; the only static "
+            "tie there is C13_generated_send_commands_structure (the loop iterates over the slice commands[:-1], read from the AST). Refused "
+            "containers (tuple, iterator: ScrapliTypeError) are oracle-only as well. "
             "Unknown privilege level names (malformed stream) are model-vs-implementation only. Trusted: Coq kernel + vm_compute, gen/gen_send.py "
             "(AST reading of _abort_config / send_commands), SimDevice and the scripted transports.",
     "technique": "Coq proofs by induction over the line list (loop invariant of the all-but-last loop with break, splitlines scanner invariant, infix/join lemma) "
